@@ -11,8 +11,19 @@ def can(i):
     return ["can", i]
 
 
+def lobj(typ, osz, total, fill=0x11):
+    """raw bytes of an object with a base header only (declared size osz, total bytes emitted)"""
+    import struct
+    b = bytearray([fill] * max(total, 16))
+    b[0:4] = b"LOBJ"
+    b[4:16] = struct.pack("<HHII", 16, 1, osz, typ)
+    return ["raw", "".join("%02x" % x for x in b[:total])]
+
+
 def read_grid(tier, post=0):
     g = [
+        # a known type whose declared size is below its layout: read 48 bytes, then seek back by the difference
+        dict(name="r_undersized", params=dict(B=64, Q=1, POST=post, NREADS=-1), items=[lobj(1, 44, 48), can(2)], conts=[96]),
         dict(name="r_aligned", params=dict(B=48, Q=1, POST=post, NREADS=-1), items=[can(1), can(2)], conts=[48, 48]),
         dict(name="r_span", params=dict(B=64, Q=2, POST=post, NREADS=-1), items=[can(1), can(2)], conts=[30, 66]),
         dict(name="r_close1", params=dict(B=48, Q=1, POST=post, NREADS=1), items=[can(1), can(2)], conts=[48, 48]),
@@ -156,7 +167,7 @@ def model_and_replay(rep, kind, scs, tag, invariants, liveness=True, variant="sc
     if agg["crashed"]:
         c = agg["crashed"][0]
         rep.violation("%s:m1:crash" % key, "driver crashed/sanitizer report during edge replay (%s): rc=%s %s"
-                      % (variant, c.get("rc"), (c.get("stderr") or "")[-600:].replace("\n", " | ")), c)
+                      % (variant, c.get("rc"), san_summary(c.get("stderr") or "")), c)
     elif agg["mismatches"]:
         f = agg["first"]
         rep.violation("%s:m1:mismatch" % key, "real File leaves the %s graph at '%s': expected %s got %s"
@@ -165,6 +176,14 @@ def model_and_replay(rep, kind, scs, tag, invariants, liveness=True, variant="sc
     elif agg["paths"] != stats["paths"]:
         raise vlib.ToolError("replayed %d of %d paths" % (agg["paths"], stats["paths"]))
     return dict(stats=stats, agg=agg)
+
+
+def san_summary(err):
+    """the lines of a sanitizer report that say what and where"""
+    import re
+    keep = [ln.strip() for ln in err.splitlines()
+            if re.search(r"ERROR: \w+Sanitizer|SUMMARY:|WARNING: ThreadSanitizer|#0 |#1 |runtime error", ln)]
+    return " | ".join(keep[:6]) if keep else err[-400:].replace("\n", " | ")
 
 
 def random_runs(rep, kind, scs, tag, seed, runs, variant="sched", key=None, env=None, timeout=1500):
